@@ -21,6 +21,11 @@ Tie (on every run):
      simulated logs is compared with what the application was told (the property itself).
   Liveness side (bounded virtual time): in the retriable-only stream every call must return, every
   commit commit and every abort abort.
+
+Reading taken for "all records of a transaction": the records whose send() was acknowledged (future
+resolved successfully).  A record whose future failed is claimed neither visible nor invisible (it
+may have been written by an attempt whose reply was lost); what IS checked for every batch,
+acknowledged or failed, is that EndTxn is not sent while it is unresolved.
 """
 import asyncio
 import json
@@ -57,6 +62,12 @@ APIS = list(RETR_CODES)
 
 
 # --------------------------------------------------------------------------- workload generation
+COORD_APIS = ["AddPartitionsToTxn", "AddOffsetsToTxn", "TxnOffsetCommit", "EndTxn"]
+NONRETRIABLE_PRODUCE = [10, 87, 2]      # MESSAGE_TOO_LARGE, INVALID_RECORD, CORRUPT_MESSAGE: fail the batch for good
+SEND_GAPS = [0.0, 0.0, 0.0, 0.01, 0.03, 0.05, 0.1, 0.15, 0.25, 0.4, 0.6]
+REPLY_DELAYS = [0.05, 0.2, 0.4, 0.8, 1.5]
+
+
 def gen_case(rng, mixed):
     nodes = rng.choice([1, 2, 2, 3])
     n_inc = rng.choice([1, 1, 2, 3]) if mixed else rng.choice([1, 1, 1, 2])
@@ -65,9 +76,12 @@ def gen_case(rng, mixed):
         txns = []
         for _t in range(rng.randrange(1, 5)):
             sends = [rng.randrange(0, rng.choice([1, 2, 3])) for _ in range(rng.randrange(0, 6))]
+            stagger = rng.random() < 0.6
             txns.append({
                 "sends": sends,
-                "await": rng.random() < 0.5,
+                # every send() is its own task; it starts `delays[j]` virtual seconds after begin
+                "delays": [rng.choice(SEND_GAPS) if stagger else 0.0 for _ in sends],
+                "await": rng.random() < 0.4,
                 "offsets": rng.random() < 0.35,
                 "end": rng.choice(["commit", "commit", "commit", "abort", "ctx_ok", "ctx_exc"]),
                 "linger": rng.choice([0, 0, 5]),
@@ -79,10 +93,17 @@ def gen_case(rng, mixed):
     faults = []
     for _ in range(rng.choice([0, 1, 2, 3, 5, 8])):
         api = rng.choice(APIS)
-        kind = rng.choice(["error", "error", "drop_before", "drop_after", "lose_reply", "move", "move"])
+        kind = rng.choice(["error", "error", "drop_before", "drop_after", "lose_reply", "move", "move", "delay", "delay"])
         f = {"api": api, "nth": rng.randrange(0, 6), "kind": kind}
         if kind == "error":
             f["code"] = rng.choice(RETR_CODES[api])
+            f["count"] = rng.choice([1, 1, 2, 3])       # the same retriable answer several times in a row
+        if kind == "delay":
+            # a slow coordinator / leader: the request is applied, the reply comes late
+            f["seconds"] = rng.choice(REPLY_DELAYS)
+            f["count"] = rng.choice([1, 1, 2])
+            if api == "Produce" and rng.random() < 0.6:
+                f["tp"] = rng.randrange(0, 3)
         if kind == "move":
             if api == "Produce":
                 f["kind"] = "move_leader"
@@ -94,22 +115,97 @@ def gen_case(rng, mixed):
                 f["kind"] = "move_coord"
             f["to"] = rng.randrange(0, nodes)
         faults.append(f)
+    if rng.random() < 0.35:
+        # one partition's leader is slow for the whole run
+        faults.append({"api": "Produce", "nth": None, "count": None, "kind": "delay",
+                       "seconds": rng.choice(REPLY_DELAYS), "tp": rng.randrange(0, 3)})
+    if rng.random() < 0.35:
+        # the coordinator is slow answering one kind of request for the whole run
+        faults.append({"api": rng.choice(COORD_APIS), "nth": None, "count": None, "kind": "delay",
+                       "seconds": rng.choice(REPLY_DELAYS)})
     if mixed:
         for _ in range(rng.choice([0, 1, 1, 2])):
             api = rng.choice(list(ABRT_CODES))
             faults.append({"api": api, "nth": rng.randrange(0, 4), "kind": "error", "code": ABRT_CODES[api]})
+        for _ in range(rng.choice([0, 0, 1, 1, 2])):
+            # a batch fails for good (non-retriable Produce error) - possibly while others are in flight
+            faults.append({"api": "Produce", "nth": rng.randrange(0, 4), "kind": "error",
+                           "code": rng.choice(NONRETRIABLE_PRODUCE), "tp": rng.randrange(0, 3)})
     return {"nodes": nodes, "jitter": rng.choice([0.0, 0.0005, 0.002]),
             "completion_delay": rng.choice([0.0, 0.0, 0.03]),
             "txn_node": rng.randrange(0, nodes), "grp_node": rng.randrange(0, nodes),
             "incs": incs, "faults": faults, "mixed": mixed, "seed": rng.randrange(1, 10**6)}
 
 
+def exact_families():
+    """deterministic schedules (every run, both tiers)
+
+    A. the second send() lands at every point of the flight of the first AddPartitionsToTxn
+       (slow reply / CONCURRENT_TRANSACTIONS / COORDINATOR_LOAD_IN_PROGRESS back-off): the sender loop
+       is woken while the transactional request is still in flight;
+    B. one batch of the transaction fails for good while a batch on another leader is still
+       unacknowledged, and the transaction is ended without waiting for the send futures."""
+    out = []
+
+    def case(nodes, txns, faults, mixed, seed):
+        return {"nodes": nodes, "jitter": 0.0, "completion_delay": 0.0, "txn_node": 0, "grp_node": 0,
+                "incs": [{"txns": txns, "how": "finish", "kill_at": 1.0}], "faults": faults,
+                "mixed": mixed, "seed": seed}
+
+    gaps = [0.003, 0.01, 0.03, 0.06, 0.1, 0.15, 0.25, 0.39, 0.45, 0.7]
+    slow = [
+        [{"api": "AddPartitionsToTxn", "nth": 0, "kind": "delay", "seconds": 0.4}],
+        [{"api": "AddPartitionsToTxn", "nth": 0, "kind": "error", "code": 51, "count": 4}],
+        [{"api": "AddPartitionsToTxn", "nth": 0, "kind": "error", "code": 14, "count": 3}],
+        [{"api": "AddPartitionsToTxn", "nth": 0, "kind": "lose_reply"}],
+    ]
+    k = 0
+    for flt in slow:
+        for g in gaps:
+            for second in (1, 0):
+                for end in ("commit", "abort"):
+                    if end == "abort" and g not in (0.03, 0.25):
+                        continue
+                    k += 1
+                    out.append(case(2, [{"sends": [0, second], "delays": [0.0, g], "await": False, "offsets": False,
+                                         "end": end, "linger": 0},
+                                        {"sends": [second], "delays": [0.0], "await": True, "offsets": False,
+                                         "end": "commit", "linger": 0}], [dict(f) for f in flt], False, 1000 + k))
+    # a slow AddOffsetsToTxn / TxnOffsetCommit with a send arriving meanwhile
+    for api in ("AddOffsetsToTxn", "TxnOffsetCommit"):
+        for g in (0.05, 0.2, 0.5):
+            k += 1
+            out.append(case(2, [{"sends": [0, 1], "delays": [0.0, g], "await": False, "offsets": True,
+                                 "end": "commit", "linger": 0}],
+                            [{"api": api, "nth": 0, "kind": "delay", "seconds": 0.4},
+                             {"api": "AddPartitionsToTxn", "nth": 0, "kind": "delay", "seconds": 0.3}], False, 1000 + k))
+    # family B
+    for code in NONRETRIABLE_PRODUCE[:2]:
+        for d in (0.3, 0.8):
+            for end in ("commit", "abort", "ctx_ok"):
+                for gap in (0.0, 0.05):
+                    for bad, slowp in ((0, 1), (1, 0)):
+                        k += 1
+                        out.append(case(2, [{"sends": [bad, slowp, slowp], "delays": [0.0, gap, gap], "await": False,
+                                             "offsets": False, "end": end, "linger": 0},
+                                            {"sends": [slowp], "delays": [0.0], "await": True, "offsets": False,
+                                             "end": "commit", "linger": 0}],
+                                        [{"api": "Produce", "nth": 0, "kind": "error", "code": code, "tp": bad},
+                                         {"api": "Produce", "nth": None, "count": None, "kind": "delay",
+                                          "seconds": d, "tp": slowp}], True, 1000 + k))
+    return out
+
+
 def install_faults(env, cluster, case):
     F = env.sim.Fault
     for f in case["faults"]:
         k = f["kind"]
+        tp = (TOPIC, f["tp"]) if f.get("tp") is not None and k in ("error", "delay") else None
+        cnt = f.get("count", 1)
         if k == "error":
-            cluster.faults.add(F("error", api=f["api"], nth=f["nth"], code=f["code"]))
+            cluster.faults.add(F("error", api=f["api"], nth=f["nth"], code=f["code"], tp=tp, count=cnt))
+        elif k == "delay":
+            cluster.faults.add(F("delay", api=f["api"], nth=f["nth"], seconds=f["seconds"], tp=tp, count=cnt))
         elif k in ("drop_before", "drop_after", "lose_reply"):
             cluster.faults.add(F(k, api=f["api"], nth=f["nth"]))
         elif k == "move_coord":
@@ -117,9 +213,9 @@ def install_faults(env, cluster, case):
             cluster.faults.add(F("call", api=f["api"], nth=f["nth"], label=f"move txn coordinator to {to}",
                                  fn=lambda cl, rq, to=to: cl.move_coordinator("txn", TXID, to, keep_state=True)))
         elif k == "move_leader":
-            to, tp = f["to"] % case["nodes"], (TOPIC, f["tp"])
-            cluster.faults.add(F("call", api=f["api"], nth=f["nth"], label=f"move leader of {tp} to {to}",
-                                 fn=lambda cl, rq, to=to, tp=tp: cl.set_leader(tp, to)))
+            to, tp2 = f["to"] % case["nodes"], (TOPIC, f["tp"])
+            cluster.faults.add(F("call", api=f["api"], nth=f["nth"], label=f"move leader of {tp2} to {to}",
+                                 fn=lambda cl, rq, to=to, tp2=tp2: cl.set_leader(tp2, to)))
 
 
 # --------------------------------------------------------------------------- the workload itself
@@ -144,6 +240,24 @@ async def run_incarnation(env, cluster, case, i, spec, obs, boot):
     p = env.aiokafka.AIOKafkaProducer(bootstrap_servers=boot, client_id=f"p{i}", transactional_id=TXID,
                                       request_timeout_ms=TC.REQUEST_TIMEOUT_MS)
     state = {"p": p, "started": False}
+    # observe the client side of the connections from outside: what is handed to a connection and
+    # which acknowledgements have come back (AIOKafkaClient.send is the single choke point)
+    orig_send = p.client.send
+
+    async def observed_send(node_id, request, **kw):
+        key = getattr(request, "API_KEY", None)
+        if key == 0 and getattr(request, "_transactional_id", None) is not None:
+            parts = sorted(part for topic, plist in request._topics if topic == TOPIC for part, _data in plist)
+            cluster._ev("api", op="produce_send", i=i, parts=parts)
+        resp = await orig_send(node_id, request, **kw)
+        if key == 24:
+            okp = sorted(part for topic, plist in resp.errors if topic == TOPIC for part, code in plist if code == 0)
+            allok = all(code == 0 for _topic, plist in resp.errors for _part, code in plist)
+            if allok and okp:
+                cluster._ev("api", op="reg_ack", i=i, parts=okp)
+        return resp
+
+    p.client.send = observed_send
     try:
         await p.start()
     except asyncio.CancelledError:
@@ -174,6 +288,9 @@ async def run_incarnation(env, cluster, case, i, spec, obs, boot):
 
             async def one(j, part):
                 payload = f"i{i}t{t}s{j}"
+                gap = (txn.get("delays") or [0.0] * len(txn["sends"]))[j]
+                if gap:
+                    await asyncio.sleep(gap)
                 try:
                     fut = await p.send(TOPIC, payload.encode(), partition=part, timestamp_ms=now_ms())
                 except (E.KafkaError, AssertionError) as ex:
@@ -374,6 +491,12 @@ def translate(trace, obs):
                 evs.append(f"f{i}.{e['r']}")
             elif op == "offs_ok":
                 evs.append(f"o{i}.{e['o']}")
+            elif op == "produce_send":
+                for part in e["parts"]:
+                    evs.append(f"D{i}.{part}")
+            elif op == "reg_ack":
+                for part in e["parts"]:
+                    evs.append(f"K{i}.{part}")
             elif op == "commit_call":
                 evs.append(f"cc{i}")
             elif op == "abort_call":
@@ -437,8 +560,10 @@ def run_trace_case(env, case):
             for payload, o in r["recs"]:
                 if o == "ok" and payload not in vis_all and why is None:
                     why = ("c07:committed-missing", f"record {payload} of a committed transaction is not visible to a read-committed reader")
-                if o != "ok" and payload in vis_all and why is None:
-                    why = ("c07:failed-send-visible", f"record {payload} whose send failed is visible")
+                # a record whose send() future FAILED is not claimed either way: the property speaks of the
+                # records of the transaction the producer acknowledged (reading taken: "records of a
+                # transaction" = records whose send was acknowledged).  Such a record can legitimately be
+                # in the log: first attempt applied with the reply lost, retry answered with an error.
             if r["offset_ok"]:
                 last_off = r["offset"]
         elif r["outcome"] == "aborted" or r["outcome"] == "killed-in-txn":
@@ -581,6 +706,9 @@ def run(ctx):
                         api_cases.append((tuple(c["calls"]), tuple(c["fault"]) if c.get("fault") else None,
                                           c.get("fault_as", "-")))
         ctx.coverage["corpus_cases"] = len(trace_cases) + len(api_cases)
+        fam = exact_families()
+        trace_cases += fam
+        ctx.coverage["exact_schedule_cases"] = len(fam)
         rng = ctx.rng("traces")
         n_tr = 40000 if ctx.thorough else 1200
         for k in range(n_tr):
@@ -704,7 +832,14 @@ def run(ctx):
         "partitions, offsets, commit/abort/context manager; faults: retriable codes, dropped connections before/after "
         "apply, lost replies (request timeout), transaction coordinator moved, partition leader moved, at "
         "InitProducerId/AddPartitionsToTxn/AddOffsetsToTxn/TxnOffsetCommit/EndTxn/Produce/FindCoordinator; every second "
-        "workload also authorization errors and zombies); non-trivial = >= 1 transaction and >= 10 events. "
+        "workload also authorization errors, non-retriable Produce errors and zombies); send() tasks start staggered "
+        "(0..0.6 s after begin), coordinator and partition leaders answer late (reply delays 0.05..1.5 s, single "
+        "requests or a whole run), transactions are ended without waiting for the send futures in 60 % of the cases; "
+        "plus 150 exact schedules: the second send() swept across the flight of the first AddPartitionsToTxn (slow "
+        "reply / CONCURRENT_TRANSACTIONS / LOAD_IN_PROGRESS back-off / lost reply), and one batch failing for good "
+        "while a batch on another leader is unacknowledged when the transaction is ended; the client side of the "
+        "connections is observed at AIOKafkaClient.send (Produce handed over, AddPartitionsToTxn acknowledged); "
+        "non-trivial = >= 1 transaction and >= 10 events. "
         "A: seeded sequential programs of 3..12 calls incl. kill-and-restart with at most one fault, compared with the "
         "API automaton; non-trivial = sends a transactional request. distinct by case text")
     if mism:
